@@ -37,6 +37,7 @@ package scorch
 //@   ensures implies(result1 == nil, result0 != nil)
 // a deleted bitmap is closed when it contains the nested children of each of its members
 //@ uf nestedClosed(seg segment.Segment, b *roaring.Bitmap) bool
+//@ axiom nestedClosedNil: all(sg, segment.Segment, nestedClosed(sg, nil))
 //@ assume func segment.NestedSegment.AddNestedDocuments(ns, deleted)
 //@   requires ns != nil
 //@   ensures nestedClosed(ns, result) && all(x, uint32, implies(bin(deleted, x), bin(result, x)))
@@ -113,6 +114,7 @@ package scorch
 //@   loop 0: invariant runningOffsets(newSnapshot.segment, newSnapshot.offsets, len(newSnapshot.segment)) && segsOKn(newSnapshot.segment, len(newSnapshot.segment))
 //@   loop 0: invariant implies(len(newSnapshot.segment) == 0, running == 0) && implies(len(newSnapshot.segment) > 0, running == newSnapshot.offsets[len(newSnapshot.segment)-1] + segDocs(newSnapshot.segment[len(newSnapshot.segment)-1].segment)) && running <= 4294967296 * iter
 //@   loop 0: invariant docsToPersistCount <= 4294967296 * iter && memSegments <= iter && fileSegments <= iter && newSnapshot.internal != nil && fresh(newSnapshot.internal) && (cap(droppedSegmentFiles) == 0 || fresh(droppedSegmentFiles))
-//@   loop 1: invariant newSnapshot != nil && newSnapshot.internal != nil && fresh(newSnapshot.internal)
-//@   loop 2: invariant newSnapshot != nil && newSnapshot.internal != nil && fresh(newSnapshot.internal)
+//@   loop 0: invariant next.internal == old(next.internal)
+//@   loop 1: invariant newSnapshot != nil && newSnapshot.internal != nil && fresh(newSnapshot.internal) && next.internal == old(next.internal) && root.internal == old(s.root.internal)
+//@   loop 2: invariant newSnapshot != nil && newSnapshot.internal != nil && fresh(newSnapshot.internal) && next.internal == old(next.internal)
 //@   loop 3: invariant s != nil && !held(s.rootLock) && rheld(s.rootLock) == 0 && s.root == newSnapshot
